@@ -619,3 +619,56 @@ Proof.
   specialize (H (or_intror (or_introl eq_refl)) eq_refl (mkPdr 1 [1; 2]) (or_introl eq_refl)).
   destruct H as [H|[H|[]]]; discriminate.
 Qed.
+
+(* ------------------------------------------------------------------ statements used by Props/C09.v *)
+(* the QERs a modification carries come out of parseQER: application level *)
+Definition parsed (m : modmsg) : Prop := all_app (m_cqers m) /\ all_app (m_uqers m).
+Definition untouched (m : modmsg) (q : qer) : Prop := forall u, In u (m_uqers m) -> q_id q <> q_id u.
+
+Lemma c09_sound_refuted_no_candidate : exists cp cq, all_app cq /\ ~ sound (fst (establish cp cq)) (snd (establish cp cq)).
+Proof. eexists. eexists. exact unsound_no_candidate. Qed.
+Lemma c09_sound_refuted_stale_list : exists cp cq, all_app cq /\ (exists q, In q cq /\ candidate (last_list cp) q /\ forall p, In p cp -> In (q_id q) (p_qers p)) /\
+  ~ sound (fst (establish cp cq)) (snd (establish cp cq)).
+Proof.
+  exists [mkPdr 1 [1]; mkPdr 2 [1; 2]], [q_plain 1 10 0; q_plain 2 20 0].
+  destruct unsound_stale_list as [H1 H2]. split; [exact H1|]. split; [|exact H2].
+  exists (q_plain 1 10 0). split; [now left|]. split; [split; reflexivity|].
+  intros p [<-|[<-|[]]]; cbn; tauto.
+Qed.
+Lemma c09_sound_refuted_three_qers : exists cp cq, all_app cq /\ length cq = 3%nat /\ ~ sound (fst (establish cp cq)) (snd (establish cp cq)).
+Proof.
+  exists [mkPdr 1 [2; 1]; mkPdr 2 [1; 2; 3]], [q_plain 1 10 0; q_plain 2 20 0; q_plain 3 30 0].
+  destruct unsound_three_qers as [H1 H2]. split; [exact H1|]. split; [reflexivity|exact H2].
+Qed.
+
+Lemma c09_at_most_one_refuted : exists conf cp cq ms st, In st (run_history conf cp cq ms) /\ count_sess (s_qers (fst st)) = 2%nat /\
+  est_guard cp cq = true /\ all_app cq /\ Forall parsed ms.
+Proof.
+  exists [], [mkPdr 1 [1; 2]; mkPdr 2 [1; 2]], [q_plain 1 100 0; q_plain 2 500 0], [mkMod [] [] [] [q_plain 1 1000 0]].
+  eexists. split; [vm_compute; right; left; reflexivity|]. split; [vm_compute; reflexivity|]. split; [vm_compute; reflexivity|].
+  split; [repeat constructor|]. repeat constructor.
+Qed.
+
+Lemma c09_stable_refuted : exists conf cp cq m, est_guard cp cq = true /\ all_app cq /\ parsed m /\ m_cpdrs m = [] /\ m_updrs m = [] /\
+  (forall q, In q (s_qers (fst (establish cp cq))) -> untouched m q) /\
+  exists c, In c (snd (bess_modify conf (fst (establish cp cq)) m)) /\ k_tbl c = SessTbl.
+Proof.
+  exists [], [mkPdr 1 [1; 2]; mkPdr 2 [1; 2]], [q_plain 1 100 0; q_plain 2 500 0], (mkMod [] [q_plain 3 10 5; q_plain 4 10 5] [] []).
+  split; [vm_compute; reflexivity|]. split; [repeat constructor|]. split; [split; repeat constructor|].
+  split; [reflexivity|]. split; [reflexivity|]. split; [intros q _ u []|].
+  eexists. split; [vm_compute; left; reflexivity|reflexivity].
+Qed.
+
+(* non-vacuity of the guards *)
+Lemma est_guard_example :
+  est_guard [mkPdr 1 [3; 1; 2]; mkPdr 2 [2; 1]; mkPdr 3 [1; 2]] [q_plain 1 100 5; q_plain 2 500 0; q_plain 3 900 0] = true /\
+  map q_level (s_qers (fst (establish [mkPdr 1 [3; 1; 2]; mkPdr 2 [2; 1]; mkPdr 3 [1; 2]] [q_plain 1 100 5; q_plain 2 500 0; q_plain 3 900 0]))) = [0; 1; 0] /\
+  map p_qers (s_pdrs (fst (establish [mkPdr 1 [3; 1; 2]; mkPdr 2 [2; 1]; mkPdr 3 [1; 2]] [q_plain 1 100 5; q_plain 2 500 0; q_plain 3 900 0]))) = [[3; 1; 2]; [1; 2]; [1; 2]].
+Proof. repeat split; vm_compute; reflexivity. Qed.
+
+Lemma guarded_example :
+  let cp := [mkPdr 1 [1; 2]; mkPdr 2 [2; 1]] in let cq := [q_plain 1 100 0; q_plain 2 500 0] in
+  let ms := [mkMod [] [q_plain 3 900 0] [] []; mkMod [] [] [] [q_plain 1 300 0]; mkMod [] [q_plain 4 50 5] [] []] in
+  est_guard cp cq = true /\ guarded (fst (establish cp cq)) ms = true /\
+  map (fun st => map q_level (s_qers (fst st))) (run_history [] cp cq ms) = [[0; 1]; [0; 1; 0]; [0; 1; 0]; [0; 1; 0; 0]].
+Proof. cbv zeta. repeat split; vm_compute; reflexivity. Qed.
